@@ -407,6 +407,10 @@ func (parameter *Parameter) Validate(ctx context.Context, opts ...ValidationOpti
 					if err := v.Validate(ctx); err != nil {
 						return fmt.Errorf("%s: %w", k, err)
 					}
+					if v.Value.ExternalValue != "" {
+						// the example lives elsewhere: there is no value here to hold against the schema
+						continue
+					}
 					if err := validateExampleValue(ctx, v.Value.Value, schema.Value); err != nil {
 						return fmt.Errorf("%s: %w", k, err)
 					}
